@@ -222,7 +222,7 @@ type fakeSrv struct {
 
 func newFakeSrv() *fakeSrv {
 	s := &fakeSrv{}
-	s.srv = httptest.NewServer(http.HandlerFunc(func(w http.ResponseWriter, r *http.Request) {
+	s.srv = verifrt.NewHTTPServer(http.HandlerFunc(func(w http.ResponseWriter, r *http.Request) {
 		body, _ := io.ReadAll(r.Body)
 		s.mu.Lock()
 		seq := len(s.reqs)
